@@ -254,13 +254,19 @@ func genQueryResult(ctx context.Context, submitterc chan []byte, url string, pat
 		rawMsg, err := dataFetch(url)
 		if err != nil {
 			logger.Error(err)
-			errc <- err
+			select {
+			case errc <- err:
+			case <-ctx.Done():
+			}
 			return
 		}
 		msgReturn, err := dataParse(rawMsg, pathStr)
 		if err != nil {
 			logger.Error(err)
-			errc <- err
+			select {
+			case errc <- err:
+			case <-ctx.Done():
+			}
 			return
 		}
 		logger.TimeTrack(startTime, "TFetch", map[string]interface{}{"GroupID": ctx.Value(ctxKey("GroupID")), "RequestID": ctx.Value(ctxKey("RequestID"))})
@@ -397,7 +403,11 @@ func recoverSign(ctx context.Context, signc chan *vss.Signature, suite suites.Su
 				if sign == nil || sign.Signature == nil || sign.Content == nil {
 					err := errors.New("Detected nil pointer and skipped")
 					logger.Error(err)
-					errc <- err
+					select {
+					case errc <- err:
+					case <-ctx.Done():
+						return
+					}
 					continue
 				}
 
@@ -406,13 +416,21 @@ func recoverSign(ctx context.Context, signc chan *vss.Signature, suite suites.Su
 					sig, err := tbls.Recover(suite, pubPoly, sign.Content, signShares, nbThreshold, nbParticipants)
 					if err != nil {
 						logger.Error(err)
-						errc <- err
+						select {
+						case errc <- err:
+						case <-ctx.Done():
+							return
+						}
 						continue
 					}
 
 					if err = bls.Verify(suite, pubPoly.Commit(), sign.Content, sig); err != nil {
 						logger.Error(err)
-						errc <- err
+						select {
+						case errc <- err:
+						case <-ctx.Done():
+							return
+						}
 						continue
 					}
 					x, y := sign.ToBigInt()
@@ -421,7 +439,12 @@ func recoverSign(ctx context.Context, signc chan *vss.Signature, suite suites.Su
 					//Contract will append sender address to content to verify if it is a right submitter
 					t := len(sign.Content) - addrLen
 					if t < 0 {
-						errc <- errors.New("length of content less than 0")
+						select {
+						case errc <- errors.New("length of content less than 0"):
+						case <-ctx.Done():
+							return
+						}
+						continue
 					}
 
 					queryResult := make([]byte, t)
